@@ -206,9 +206,24 @@ func genLive(r *rand.Rand) string {
 			nextUnsub++
 			live = live[1:]
 		case k == 8:
-			acts = append(acts, fmt.Sprintf("mkchan %d", nextChan), fmt.Sprintf("unsub %d 0 %d", nextUnsub, nextChan))
+			// a Wait-variant publish with several hand-offs while writers keep arriving back to back (Unsub of an unknown channel takes the
+			// write lock): a writer that slips in between the publisher's lock and its senders' work must not wedge the call
+			acts = append(acts, "wait", fmt.Sprintf("mkchan %d", nextChan))
+			variant := []string{"pubwait", "pubslicewait", "pubslicewait"}[r.Intn(3)]
+			evs := []string{strconv.Itoa(nextVal)}
+			nextVal++
+			if variant == "pubslicewait" {
+				evs = append(evs, strconv.Itoa(nextVal))
+				nextVal++
+			}
+			acts = append(acts, fmt.Sprintf("pub %d 0 %s %s", nextPub, variant, strings.Join(evs, ",")))
+			nextPub++
+			for j, m := 0, 6+r.Intn(6); j < m; j++ {
+				acts = append(acts, fmt.Sprintf("+unsub %d 0 %d", nextUnsub, nextChan))
+				nextUnsub++
+			}
 			nextChan++
-			nextUnsub++
+			acts = append(acts, "wait")
 		default:
 			if len(live) < 4 {
 				sub()
